@@ -3,7 +3,7 @@ prop(
     quick=[("native", 8), ("miri", 12)],
     thorough=[("native", 16), ("asan", 8), ("miri", 12), ("fuzz", 16)],
     level="fault_enumeration",
-    min_evals={"quick": 4_000_000, "thorough": 120_000_000},
+    min_evals={"quick": 5_500_000, "thorough": 180_000_000},
     # configuration of the `fuzz` stage (driver side: run_fuzz_stage in ../../check, target: harness/fuzz/fuzz_targets/c07_pdu.rs)
     fuzz={
         "seconds": 120,
@@ -57,7 +57,30 @@ prop(
         "Serial Query, Reset Query, Cache Response, IPv4, IPv6, End of Data, Cache Reset, Router Key, two Error Reports, ASPA), each of these 12 inserted in front of it; and the stream ending "
         "after every octet count within 9 octets of a PDU boundary and every third one elsewhere. Delivery per transcript: all at once, byte-wise with Pending, or a random chunk/Pending script. "
         "One evaluation = one conversation run up to and including the judged call. Signatures: (entry point, version, damage class, reading position idle | first reply to serial query | first "
-        "reply to reset query | payload sequence, role of the PDU, exchange 1 / 2 / 3+, delivery)."
+        "reply to reset query | payload sequence, role of the PDU, exchange 1 / 2 / 3+, delivery). "
+        "(d) version negotiation histories (module c07_nego; native and ASan stages, a few under Miri in the thorough tier): the client (Client::new, with_initial_version 0/1/2/3/255; with or without "
+        "initial state; optionally after one completed exchange on the connection, i.e. 'later' histories) is called through step, update + apply or reset + apply against a scripted peer that "
+        "answers query by query with reply units laid out by the independent encoder: 'unsupported protocol version' Error Reports (code 4, header version 0/1/2/3/255, with or without the "
+        "embedded query, text of 0..1100 octets so that the report straddles the 1024-octet skip buffer), complete responses with every PDU in one version, Cache Reset in some version. 14 history "
+        "templates: one downgrade then a response in the requested version (control); a response in another version; a second report (same / lower / higher version) then a response; 2..200 "
+        "reports (same, descending, alternating 1/0, ascending, random versions) then end of stream or silence; a report and then a GENERATOR that answers every further query with the next "
+        "report of a cyclic pattern for ever; the generator from the first query on; downgrade, Cache Reset, response with one of the three in a deviating version; Cache Reset first, then reports; "
+        "downgrade, Cache Reset, generator; a plain response (also in a version above the one asked for); random sequences of 1..6 units. A third of the finite histories is on the wire at once, the "
+        "others are released one unit per query the client has written (queries are recognised by the harness' own header parser in what the client writes); delivery all at once / byte-wise with "
+        "Pending / random chunk script. The generator turns the read after its 64th answer into an error, so a client that never stops asking is a bounded event. One evaluation = one judged call. "
+        "Signatures: (entry point, version proposed, fresh | after a completed exchange, template, first four units with their version relative to the first unit's, what follows, eager | lockstep). "
+        "(e) streams that stay open and silent (module c07_silent): a reader that hands out a prefix in one of the three delivery patterns and then answers every read with Pending without ever "
+        "waking the task, counting those polls. PDU level (native, ASan, Miri): every one of the 37 read entry points on every prefix length >= 8 (up to 44 octets, and the full length) of: a complete PDU of "
+        "every type from the generator (for most readers 'another type, shorter than mine'); the same PDU with its length field set to 8..32 / true-4 / true+4 / a random value and the body cut or "
+        "zero-padded to that length; a complete PDU of at most 12 octets followed by another PDU; bare headers with type 0..13, 0x7F, 0xFF, one random and 18 length values (0..40, 1000, 4000, 2^16+8); "
+        "End of Data headers of versions 3, 0x7F, 0xFF; plus prefixes of 3 and 7 octets. The future is polled by hand with a counting waker; Pending without a wake-up is 'waits for ever' (there is "
+        "no timer at this level). Client level (native, ASan): Client::step / update + apply on a current-thread runtime with PAUSED CLOCK that is really driven (virtual time jumps to the next timer "
+        "whenever the client waits; the harness' own timeout of 4*10^6 virtual seconds is the only other timer), protocol versions 0..2, 0..2 completed exchanges in front, refresh intervals 1 s .. 1 day; "
+        "at the idle position (half of the cases; the refresh timer eventually fires), as first reply to the serial / reset query, and after the Cache Response and 0..2 payload PDUs there arrives: a "
+        "complete PDU of one of eight types, a bare header (15 type values x 18 lengths), a PDU the position expects resized coherently to 8..28 / true-4 / true-1 octets, the first k octets of an "
+        "expected PDU, or nothing; after that the peer is silent, except that a query the client writes is answered with a complete response (a cache that goes on working). One evaluation = one "
+        "reader on one prefix / one judged client call. Signatures: (entry point, header type class, length class, how much of the announced length arrived, what the statement demands) and "
+        "(client entry point, version, reading position, exchanges before, header class, octets arrived, demand)."
     ),
     assumptions=[
         "the wire layout of the harness' encoder is the one of RFC 6810 / RFC 8210 and of the ASPA PDU as implemented (flags in the high octet of the session field, customer, providers)",
@@ -83,6 +106,21 @@ prop(
         "the judged header (type, length), the judged PDU plus the next one of the same exchange (version). A fault that leaves a header the grammar reads on with (a PDU replaced by or "
         "preceded by another payload PDU or End of Data, a still possible length, a resized Error Report) is recorded as accepted/refused; an earlier call that fails on undamaged octets and "
         "an undamaged transcript that is refused are recorded (note), not judged",
+        "negotiation histories (c07_nego), the model of 'the negotiated version' is taken from the wire only: the version is fixed by a completed exchange or by a code-4 Error Report whose version is below the version octet of the query it answers (the client's own query, parsed from what it wrote). From then on a Cache "
+        "Response, a Cache Reset answering a serial query, or a further code-4 Error Report with ANOTHER version octet announces a wrong version: the call must return Err without having taken more "
+        "than that PDU and the next one (RFC 8210 section 7: once negotiated the version does not change). One call may work through at most 3 code-4 reports (there are three protocol versions; the "
+        "fourth must end the call): this is the 'bounded number of octets / queries'. Left open and only recorded: a second report with the SAME version as negotiated, a report whose version is not "
+        "below the one asked for, a response in a version above the one asked for, Cache Reset in answer to a reset query, whether a Cache Reset that is the very first PDU of a session already fixes the version, a well-behaved history that is refused (note), a call that waits on the "
+        "I/O timeout because the peer is silent (nothing drives timers in this workload)",
+        "silent streams (c07_silent): 'offending header' = a complete header whose type the reader does not take (typed read / try_read: any other type; Payload::read: anything but IPv4, IPv6, End of "
+        "Data, Router Key, ASPA; the client: the per-position grammar of c07_sess - idle: anything but Serial Notify; first reply to a serial query: anything but Cache Response, Cache Reset and the "
+        "open Serial Notify / Error Report; first reply to a reset query: anything but Cache Response and the open Serial Notify / Cache Reset / Error Report; payload sequence: anything but the five "
+        "payload types and the open Serial Notify) or whose length no PDU of the type can have (End of Data with a version above 2 has no layout). A wrong VERSION octet in an otherwise expected, "
+        "incomplete PDU is not in this set (the PDU layer does not know the version; the client checks it once the PDU is complete). After an offending header the PDU-level read must be Ready(Err) - "
+        "Pending without wake-up is reported as waiting for ever, Ok as acceptance - and must not have taken more than max(announced length, size of the PDU the reader is after); try_read on an Error "
+        "Report header must come back at once with the header. A complete well-formed PDU must be read (exactly its length taken) although nothing follows; an incomplete well-formed prefix may wait "
+        "(recorded) or be refused (recorded). Client level: the call must not return Ok (the client carried on over the offending PDU) and must not still wait when only the harness' timer is left; an "
+        "Err that only arrives after virtual time has passed (a timer of the client had to fire first) satisfies 'not for ever' and is recorded, not reported",
         "connection level, server: after the peer closed, the connection task must be gone (socket dropped) within 16*(stream length+8)+64 scheduler turns, without reading the socket more "
         "than twice after end-of-stream (the mock answers the third read with an error, which turns a busy loop on a closed socket into a bounded, observable event) and without sitting idle",
     ],
@@ -97,15 +135,21 @@ prop(
         "the first-reply readers, version bookkeeping across PDUs and across exchanges) and the server's connection task (header read raced against notifications) - at every PDU position "
         "of a response and every octet position of a query stream, with logical bounds (poll budget, scheduler-turn budget, reads after end-of-stream) instead of a clock. "
         "Whole conversations of 2..4 exchanges add the positions only a client with a completed exchange behind it reaches - the idle wait for a Serial Notify, Cache Reset and the fallback "
-        "to a reset query, the version Error Report - with faults at every PDU of the conversation judged per reading position."
+        "to a reset query, the version Error Report - with faults at every PDU of the conversation judged per reading position. "
+        "Negotiation histories replace the single fault by whole sequences of version-related replies (finite, and endless from a generator) judged against a wire-level model of the negotiated version; "
+        "silent streams replace end-of-stream by a connection that stays open and says nothing, judged by wake-ups and virtual time instead of reads after end-of-stream."
     ),
     level_note=(
         "Field values and multi-PDU sequences are sampled, not enumerated; PDUs above 4 KiB get a boundary-dense subset of truncation points; "
         "byte-wise delivery is complete only up to 160 octets per stream. A spin inside one poll that never touches the reader would only be seen by the outer watchdog (inconclusive). "
         "Connection level: one damaged header field per transcript, values of the fields sampled at boundaries; the server's output side never blocks in this workload (C08 covers that). "
         "Whole conversations: one fault per conversation; the client's clock never moves (the refresh timer of the idle wait does not fire), the target accepts everything, "
-        "what the client writes (queries, Error Reports) is kept in the detail but not judged here (C06)."
+        "what the client writes (queries, Error Reports) is kept in the detail but not judged here (C06). "
+        "Negotiation histories: templates and versions are sampled; the generator is cut off after 64 answers (a client that stops at the 65th would be reported as never stopping); only the version "
+        "octet of the client's queries is used, their content is not judged. Silent streams: prefixes above 44 octets only at full length; at the client level the clock is the only source of wake-ups "
+        "besides the client's own writes (no second task, no Serial Notify arriving later), the refresh timer path is exercised with nothing / partial PDUs arriving and is recorded, not judged; the "
+        "server side is not driven over silent streams (C08)."
     ),
-    technique="runtime oracle + fault enumeration (truncating AsyncRead, poll budget; PDU readers, Client::step / update+apply over single responses and over multi-exchange conversations with a per-position grammar, the server connection task) + Miri/ASan + libFuzzer",
+    technique="runtime oracle + fault enumeration (truncating AsyncRead, poll budget; PDU readers, Client::step / update+apply over single responses and over multi-exchange conversations with a per-position grammar, the server connection task; scripted query-by-query peer with an endless generator for version negotiation histories; never-waking silent reader and a driven paused clock for open-but-silent streams) + Miri/ASan + libFuzzer",
     design_ref="DESIGN.md §4 C07",
 )
